@@ -606,3 +606,44 @@ def _m37():
                 rpath = rpath.relpath(output.path.parent(), prefix='')
         return rpath
     patchelf.local_rpath = local_rpath
+
+
+@mutant('envvar_pop_unrecorded')
+def _m38():
+    from bfg9000.environment import EnvVarDict
+
+    def pop(self, key, *args, **kwargs):
+        return dict.pop(self, key, *args, **kwargs)
+    EnvVarDict.pop = pop
+
+
+@mutant('envvar_reset_keeps_changes')
+def _m39():
+    from bfg9000.environment import EnvVarDict
+
+    def reset(self):
+        dict.clear(self)
+        dict.update(self, self.initial)
+    EnvVarDict.reset = reset
+
+
+@mutant('envvar_lazy_changes_no_removed')
+def _m40():
+    # after from_json the recomputed changes forget variables that were removed
+    from bfg9000.environment import EnvVarDict
+
+    def changes(self):
+        if not hasattr(self, '_changes'):
+            self._changes = {}
+            for k, v in self.items():
+                if k not in self.initial or self.initial[k] != v:
+                    self._changes[k] = v
+        return self._changes
+    EnvVarDict.changes = property(changes)
+
+
+@mutant('env_version_gate_off_by_one')
+def _m41():
+    from bfg9000 import environment as benv
+    _patch_source(benv.Environment, 'load', 'if version > cls.version:',
+                  'if version > cls.version + 1:')
